@@ -18,7 +18,9 @@ Next == /\ ppos < Len(Events)
            IF Enabled(pmemo, e.op, e.res)
            THEN pmemo' = Record(pmemo, e.op, e.res) /\ pbad' = FALSE
            ELSE pmemo' = pmemo /\ pbad' = TRUE
-Accept == ~pbad \/ ~PrintT(<<"VF", "BAD", ppos - Len(Fresh), Events[ppos].op>>)
+(* A rejected event is reported through the VF line (the invariant itself stays true: TLC would *)
+(* otherwise print the whole behaviour - tens of thousands of states - for every rejection).  *)
+Accept == ~pbad \/ PrintT(<<"VF", "BAD", ppos - Len(Fresh), Events[ppos].op>>)
 
 (* the fresh-process part seeds the memo with exactly one result per operation *)
 ASSUME Len(Fresh) = Len(Ops) /\ \A k \in 1..Len(Fresh) : Fresh[k].op = k /\ Fresh[k].h = <<k>> /\ Fresh[k].src = "fresh"
